@@ -649,35 +649,25 @@ mutant("c07-candidate-gets-close-callback", "C07", "C07-D3", "engine.io/client_s
 
 	_, err := t.Handshake()""")
 mutant("c07-upgrade-sent-after-unlock", "C07", "C07-D2", "engine.io/client_socket.go",
-       """	s.transportMu.Lock()
-	defer s.transportMu.Unlock()
-
-	old := s.transport
+       """	old := s.transport
 	s.transport = t
 
 	old.Discard()
 
 	t.Send(p)""",
-       """	s.transportMu.Lock()
-	old := s.transport
+       """	old := s.transport
 	s.transport = t
-	s.transportMu.Unlock()
-
-	old.Discard()
-
-	t.Send(p)""")
+	go func() {
+		old.Discard()
+		t.Send(p)
+	}()""")
 mutant("c07-swap-lock-released-early", "C07", "C07-D2", "engine.io/server_socket.go",
-       """	s.transportMu.Lock()
-	defer s.transportMu.Unlock()
-
-	old := s.transport
+       """	old := s.transport
 	s.transport = t
 	old.Discard()""",
-       """	s.transportMu.Lock()
-	old := s.transport
+       """	old := s.transport
 	s.transport = t
-	s.transportMu.Unlock()
-	old.Discard()""")
+	go old.Discard()""")
 mutant("c07-superseded-close-not-ignored", "C07", "C07-D3", "engine.io/server_socket.go",
        """		if s.TransportName() != name {
 			return
